@@ -26,7 +26,7 @@ RULE = (
     "output precedence, no reaction to events afterwards; distinct_nontrivial = distinct canonical states"
 )
 BOUNDS = {
-    "quick": "final-state trees of TREE(N<=4) + 9 nested-parallel completion skeletons C(C(P(s1,s2),F),A) x decorations x {sync, async}",
+    "quick": "final-state trees of TREE(N<=4) + 9 nested-parallel completion skeletons C(C(P(s1,s2),F),A) + irregular larger trees holding a final state (onDone on every eligible state) x decorations x {sync, async}",
     "thorough": "final-state trees of TREE(N<=5) + 23 nested-parallel completion skeletons x decorations x {sync, async}",
 }
 ASSUMPTIONS = [
@@ -60,6 +60,11 @@ def eligible(nodes: List[F.N]) -> List[F.N]:
 def units(tier: str) -> List[Any]:
     n = 4 if tier == "quick" else 5
     out = []
+    for t in F.big_skeletons(tier):
+        if "F" in F.tree_kinds(t):
+            out.append((t, "all", None, False))
+            if tier != "quick":
+                out.append((t, "all", None, True))
     for t in list(F.trees_upto(n)) + F.done_skeletons(tier):
         if "F" not in F.tree_kinds(t):
             continue
